@@ -82,6 +82,13 @@ CHECKS.update({
         "Tie: include chains of depth 1-3 through different directories, under loop/when/ignore_errors, with failures, invalid tasks and variable writes injected, rash.path/rash.dir printed at the start and end of every file.",
    note=NOTE_ENG, technique="Coq proof over an engine mirror (include lemmas) + differential include-tree runs", design="5/C17"),
 })
+CHECKS.update({
+ "C16": dict(
+   text="Theorems over the mirror of find: an entry is listed iff it is reachable under a root within the depth limit, not below a hidden name (unless hidden), and satisfies type, size, patterns and excludes on the base name; each path is listed once when sibling names are distinct; permuting a directory's listing permutes the result. "
+        "Tie: random trees (dot names, symlinks, sizes around the limit, 1-2 roots) x random parameter combinations run through MODULES[\"find\"] and the find() lookup on a real directory tree, compared as sorted lists with the mirror; relative roots must be rejected; trees with a .ignore file probe K18.",
+   note=NOTE_COMMON + "Find.v mirrors the `ignore` walker as configured by find.rs (trusted: ignore 0.4, regex for the generated pattern family, byte_unit for plain byte counts). follow: true and size x symlink are not judged; nested roots are not generated (a multi-root walk lists shared paths once per root). K18 (ignore files honoured when hidden: false) is suppressed only when every missing entry matches the planted glob.",
+   technique="Coq proof over a mirror walker (iff / NoDup / permutation) + differential runs on real directory trees", design="5/C16"),
+})
 REASONS = {p: "not yet built in this revision (see DESIGN.md section 9b build order)" for p in ALL}
 
 def main():
